@@ -1,5 +1,7 @@
 // C06 correspondence harness: drives the real TCPIP::DataTracker with the op lines of the line protocol.
 //   init <seq> | seg <seq> <hex> [@off] | adv <seq>
+//   bigseg <seq> <len> <byte>      process_payload(seq, <len> copies of <byte>): segments of 2^31 bytes and more (the model cannot
+//                                  hold such a list; the result is compared with the theorem `oversize_segment_dropped`)
 #include "common.h"
 #include "c06_show.h"
 #include <tins/tcp_ip/data_tracker.h>
@@ -32,6 +34,11 @@ int main() {
             bytes d;
             if (!parse_hex(w[2], d)) return "bad-op";
             bool r = t->process_payload(uint32_t(std::stoull(w[1])), d);
+            return show(r ? "r=1" : "r=0", *t);
+        }
+        if (w.size() >= 4 && w[0] == "bigseg") {
+            TCPIP::DataTracker::payload_type d(size_t(std::stoull(w[2])), uint8_t(std::stoul(w[3])));
+            bool r = t->process_payload(uint32_t(std::stoull(w[1])), std::move(d));
             return show(r ? "r=1" : "r=0", *t);
         }
         if (w.size() >= 2 && w[0] == "adv") {
